@@ -21,6 +21,7 @@ def run(ctx):
     from rules import symprint
     symprint.L2_guards(ctx, "C05.L2", core, G, scope_fns=("ast_to_source",))
     symprint.shape_rules(ctx, "C05.L9", core, G, scope_fns=("ast_to_source",))
+    symprint.lambda_head(ctx, "C05.L11", core, G, scope_fns=("ast_to_source",))
     symprint.scope_threading(ctx, "C05.R10", core)
     # captured and literal numbers are emitted exactly (shared with C16.R1)
     from rules import c16
